@@ -238,7 +238,7 @@ def bounded(rep: Report, tier: str, seed: int) -> None:
                 import subprocess
 
                 try:
-                    p = subprocess.run([sys.executable, '-c', 'import sys; sys.path.insert(0, "/repo"); from flipjump.flipjump_cli import main; main()'] + argv, input=inp, capture_output=True, timeout=120, env=dict(os.environ, PYTHONPATH='/repo'))
+                    p = subprocess.run([sys.executable, '-c', 'import sys; sys.path.insert(0, __import__("os").environ.get("VERIF_REPO", "/repo")); from flipjump.flipjump_cli import main; main()'] + argv, input=inp, capture_output=True, timeout=120, env=dict(os.environ, PYTHONPATH=os.environ.get('VERIF_REPO', '/repo')))
                     outs[key] = p.stdout.decode('raw_unicode_escape') if p.returncode == 0 else f'EXIT {p.returncode}'
                 except subprocess.TimeoutExpired:
                     outs[key] = 'EXC Timeout'
